@@ -21,6 +21,8 @@ WINDOWS = ["RecoveryUnchecked", "VolatileStore", "StaleFeedback", "MultiLease", 
 MASKED = [w for w in WINDOWS if w not in ("StaleFeedback", "RecoveryUnchecked")]
 ASWAS_STALEFB = ["StaleFeedbackOverwrite"]
 ASWAS_RECOVERY = ["RecoveryUncheckedApply"]
+# as written up to a990c2d: the recovery transaction is not serialised with the gossip ingress
+ASWAS_RECOVERY_INGRESS = ["RecoveryNotSerialised"]
 
 C06_KINDS = {"engine", "value", "order", "regress", "diverged"}
 C13_KINDS = {"notify-raw", "notify-p", "notify-f", "txlh", "incomplete", "dup", "stale", "unstored", "missed",
@@ -86,6 +88,11 @@ def design_runs(tier, want):
         # must hold; as-was deviation with the same environment: must still violate
         runs.append(("m3n1k2v_rec", dict(nodes=[1, 2, 3], keys=["k1"], maxver=2, maxnet=1, faults=0, restarts=1), None))
         runs.append(("w_recovery_aswas", dict(nodes=[1, 2, 3], keys=["k1"], maxver=2, maxnet=1, faults=0, restarts=1, deviations=ASWAS_RECOVERY), "RecoveryUnchecked"))
+        # recovery vs gossip ingress: with the read/commit of the recovery transaction split and ingress
+        # allowed in between (as written) a newer accepted operation is overwritten; atomic (default) holds
+        # (the masked runs above deliver gossip to nodes in "rec" between the peers' recoveries)
+        runs.append(("w_recovery_ingress_aswas", dict(nodes=[1, 2], keys=["k1"], maxver=2, maxnet=2, faults=0, restarts=1,
+                                                      deviations=ASWAS_RECOVERY_INGRESS), "RecoveryVsIngress"))
         runs.append(("w_premature", dict(nodes=[1, 2, 3], keys=["k1"], maxver=1, maxnet=2, faults=0, restarts=0, masked=un(["PrematureRemoval"])), "PrematureRemoval"))
     else:
         runs.append(("s2n1k", dict(nodes=[1, 2], keys=["k1"], maxver=2, maxnet=1, faults=1, restarts=1, subs=True, lag=True), None))
@@ -356,6 +363,7 @@ WINDOW_SCRIPTS = [
 ]
 
 WINDOW_SIG = {
+    "RecoveryVsIngress": "C06 window recovery-vs-ingress: a gossip request accepted while the start-up recovery transaction was open is overwritten by its commit",
     "VolatileStore": "C06 window volatile-store: restart forgets infected operations, cluster quiesces diverged",
     "StaleFeedback": "C06 window stale-feedback: recovered mark for an old version un-infects the key's newer operation",
     "RecoveryUnchecked": "C06 window recovery-unchecked: start-up recovery replaces a stored operation by an older one",
@@ -374,6 +382,16 @@ HOLD_SCRIPTS = [
     # supersede (v1, lh2): node 2 must keep its operation. order: the two peers of node 3 hold v2 and v1;
     # whatever order they are recovered in, node 3 must end with v2. On an unrepaired tree a regress at
     # the "recovered" step is reported under WINDOW_SIG["RecoveryUnchecked"].
+    # gossip ingress while a start-up recovery is in progress (kv.Open binds the handlers before
+    # runRecovery): node 2 is held inside its recovery after node 1 streamed k1 v1 (vRecGate); node 1
+    # writes v2 and gossips it to node 2, which stores it; then recovery finishes. Node 2 must still
+    # hold v2. A tree whose recovery transaction is not serialised with the ingress commits v1 over it:
+    # reported under WINDOW_SIG["RecoveryVsIngress"].
+    ("d-recovery-vs-ingress", {"nodes": 2, "keys": ["k1", "k2"], "steps": [
+        {"a": "write", "n": 2, "k": "k2", "var": "set"}, {"a": "quiesce"},
+        {"a": "crash", "n": 2}, {"a": "write", "n": 1, "k": "k1", "var": "set"},
+        {"a": "restart_gated", "n": 2}, {"a": "write", "n": 1, "k": "k1", "var": "set"},
+        {"a": "deliver_rec", "from": 1}, {"a": "release"}, {"a": "quiesce"}]}),
     ("d-recovery-tie", {"nodes": 2, "keys": ["k1"], "steps": [
         {"a": "write", "n": 1, "k": "k1", "var": "set"}, {"a": "write", "n": 2, "k": "k1", "var": "set"},
         {"a": "crash", "n": 2}, {"a": "restart", "n": 2}]}),
@@ -559,7 +577,11 @@ def judge_cluster(ctx, want, scen, windows=False):
         v = vs[0]
         sig = "%s cluster %s at %s" % (want, v["kind"], v["ev"])
         taints = (v.get("taint") or "").split(",")
-        if want == "C06" and v["kind"] == "regress" and v["ev"] == "recovered":
+        if want == "C06" and v["kind"] == "regress" and v["ev"] == "recovered" and "recgate" in taints:
+            # gossip was accepted by the node while its start-up recovery was in progress, and the end of
+            # the recovery replaced that operation by an older one
+            sig = WINDOW_SIG["RecoveryVsIngress"]
+        elif want == "C06" and v["kind"] == "regress" and v["ev"] == "recovered":
             # start-up recovery replaced a stored operation by an older one: the as-was recovery.go
             sig = WINDOW_SIG["RecoveryUnchecked"]
         elif want == "C06" and v["kind"] == "diverged" and ("stalefb:" + v.get("key", "")) in taints:
